@@ -272,3 +272,22 @@ def ini_expressible(raw):
 def read_config_version(fmt, content):
     m = re.search(r'^current_version = "?([^"\n]*)"?$', content, flags=re.M)
     return m.group(1) if m else None
+
+
+class FixedPattern(FilePattern):
+    """A file pattern whose old/new occurrence texts are given explicitly (legacy {..} patterns)."""
+
+    def __init__(self, pid, raw, old_occurrence, new_occurrence):
+        self.pid, self.raw, self.pat = pid, raw, None
+        self.is_pep = False
+        self.anchor_l = self.anchor_r = False
+        self._old, self._new = old_occurrence, new_occurrence
+
+    def old_text(self, state):
+        return self._old
+
+    def ref_search(self, line, state_texts):
+        return self._old in line or self._new in line
+
+    def check_new(self, text, new_state, new_version_text):
+        return None if text == self._new else f"expected {self._new!r}"
